@@ -85,6 +85,12 @@ def _call(g, req, rel):
                 getattr(g, op)(off if rel else ab)
             elif op in ("move_absolute", "rapid_absolute"):
                 getattr(g, op)(x=ab[0], y=ab[1], z=ab[2])
+            elif op == "ctx_switch":
+                # a context of the mode the builder is ALREADY in, the mode switched inside: on exit the mode in force at
+                # entry must be back (added after seed C11e)
+                with (g.relative_mode() if rel else g.absolute_mode()):
+                    g.set_distance_mode("absolute" if rel else "relative")
+                    g.move(ab if rel else off)
             elif op == "ctx_abs":
                 with g.absolute_mode():
                     g.move(ab)
@@ -172,13 +178,25 @@ def pt(rng, lo=-40, hi=40):
     return [round(rng.uniform(lo, hi), 2), round(rng.uniform(lo, hi), 2), round(rng.uniform(-5, 5), 2)]
 
 
-def gen(rng, shape=None):
+def gen(rng, shape=None, allow_tiny=True):
     shape = shape or rng.choice(["arc", "arc", "arc_radius", "circle", "helix", "spiral", "thread", "spline", "polyline", "parametric", "mixed"])
     res = rng.choice([0.5, 1.0, 2.0])
     ccw = rng.random() < 0.5
     s = pt(rng) if rng.random() < 0.85 else [0.0, 0.0, 0.0]
     req = {"shape": shape, "res": res, "ccw": ccw, "start": s, "turns": 1, "warm": rng.random() < 0.3}
     sgn = 1.0 if ccw else -1.0
+    tiny = allow_tiny and shape in ("arc", "arc_radius", "helix") and rng.random() < 0.12
+    if tiny:
+        # a curve much shorter than the resolution (added after seed C10e: no samples at all, the target never reached):
+        # it still has to end on its target
+        r = rng.uniform(0.3, 3.0) * res
+        a0 = rng.uniform(-math.pi, math.pi)
+        c = [s[0] - r * math.cos(a0), s[1] - r * math.sin(a0), s[2]]
+        sweep = rng.choice([0.02, 0.05, 0.2]) * res / r
+        a1 = a0 + sgn * sweep
+        t = [c[0] + r * math.cos(a1), c[1] + r * math.sin(a1), s[2]]
+        req.update(shape="arc", target=t, center=c, centers=[c], r=r, hasz=False, far=False, len=r * sweep)
+        return req
     if shape in ("arc", "circle"):
         r = rng.uniform(4 * res, 45)
         a0 = rng.uniform(-math.pi, math.pi)
@@ -230,7 +248,7 @@ def gen(rng, shape=None):
         for _ in range(n):
             p = [round(prev[0] + rng.uniform(-20, 20), 2), round(prev[1] + rng.uniform(-20, 20), 2), round(prev[2] + rng.uniform(-4, 4), 2)]
             pts.append(p)
-            ops.append(rng.choice(["move", "rapid", "move_absolute", "rapid_absolute", "ctx_abs", "ctx_rel"]))
+            ops.append(rng.choice(["move", "rapid", "move_absolute", "rapid_absolute", "ctx_abs", "ctx_rel", "ctx_switch"]))
             prev = p
         req.update(target=pts[-1], controls=pts, ops=ops)
     elif shape == "parametric":
